@@ -41,7 +41,8 @@ def mk(rng, i, npos, nkw, order=None, fails=(), fn_fails=False, line=None):
     proxy = sorted(j for j in range(npos + nkw + 1) if rng.random() < 0.2)
     p = {"npos": npos, "nkw": nkw, "times": times, "threads": threads, "fails": sorted(fails),
          "fn_fails": fn_fails, "kwnames": kwnames, "proxy": proxy,
-         "base_exc": bool(fails) and not proxy and rng.random() < 0.3}
+         "base_exc": bool(fails) and not proxy and rng.random() < 0.3,
+         "rendezvous": bool(not fails and not fn_fails and max(times) > 0 and rng.random() < 0.3)}
     strat = ["random", rng.randrange(10 ** 9), 0.6] if i % 4 else ["pct", rng.randrange(10 ** 9), 3, 250]
     gran = "line" if (line if line is not None else i % 5 == 0) else "sync"
     return {"scen": "apply", "params": p, "strat": strat, "gran": gran,
